@@ -38,10 +38,12 @@ type c07Stats struct {
 	maxRegs, maxConsts, maxCode, maxUpv, maxDepth                          int
 	movenTailTargets, loopImplicitRegs                                     int
 	fragCompiled, fragCompileErr, fragWords                                int
+	rkRan, rkRanExpected                                                   int
+	rkHist                                                                 map[string]int // adv:rk programs: instructions by opcode and kind of the operand that may be a constant
 	parseErrSample                                                         string
 }
 
-var c07 = &c07Stats{compileErrKinds: map[string]int{}}
+var c07 = &c07Stats{compileErrKinds: map[string]int{}, rkHist: map[string]int{}}
 var c07Timeouts int32
 var c07SlowSkipped int32 // huge quadratic cases given up on a loaded machine (thorough tier)
 
@@ -177,10 +179,20 @@ func hostGlobals(L *lua.LState) {
 	tb.RawSetInt(2, lua.LNumber(20))
 	L.SetGlobal("t", tb)
 	L.SetGlobal("u", L.NewTable())
+	// used by the adv:rk-… programs only (no generated program mentions these names): the globals table, and
+	// setmeta(v, mt), which gives ANY value (also a string constant used as a receiver) a metatable
+	L.SetGlobal("_G", L.Get(lua.GlobalsIndex))
+	L.SetGlobal("setmeta", L.NewFunction(func(L *lua.LState) int {
+		L.SetMetatable(L.Get(1), L.Get(2))
+		L.SetTop(1)
+		return 1
+	}))
 }
 
-// runProto executes a compiled chunk under recover + timeout.  outcome: "ok:<results>", "err", "timeout", "gopanic:<msg>"
-func runProto(p *lua.FunctionProto, timeout time.Duration) (outcome string) {
+// runProto executes a compiled chunk under recover + timeout.  outcome: "ok:<results>", "err", "timeout", "gopanic:<msg>";
+// detail: the Lua error message of an "err" outcome.  A program that returns ("@list", table, n) has the n first array
+// entries of the table as its results (joined with ';': programs that check many values without formatting them in Lua).
+func runProto(p *lua.FunctionProto, timeout time.Duration) (outcome, detail string) {
 	L := lua.NewState(lua.Options{SkipOpenLibs: true, CallStackSize: 120, RegistrySize: 1024 * 8, RegistryMaxSize: 1024 * 256})
 	defer L.Close()
 	hostGlobals(L)
@@ -201,27 +213,56 @@ func runProto(p *lua.FunctionProto, timeout time.Duration) (outcome string) {
 	L.SetContext(ctx)
 	defer func() {
 		if r := recover(); r != nil {
-			outcome = "gopanic:" + fmt.Sprint(r)
+			outcome, detail = "gopanic:"+fmt.Sprint(r), ""
 		}
 	}()
 	L.Push(L.NewFunctionFromProto(p))
 	if err := L.PCall(0, lua.MultRet, nil); err != nil {
 		if ctx.Err() != nil {
-			return "timeout"
+			return "timeout", ""
 		}
 		if ae, ok := err.(*lua.ApiError); ok && ae.Type == lua.ApiErrorPanic {
-			return "gopanic:" + ae.Error()
+			return "gopanic:" + ae.Error(), ""
 		}
 		if strings.Contains(err.Error(), "runtime error:") {
-			return "gopanic:" + err.Error()
+			return "gopanic:" + err.Error(), ""
 		}
-		return "err"
+		return "err", err.Error()
+	}
+	if L.GetTop() == 3 && L.Get(1) == lua.LString("@list") {
+		if tb, ok := L.Get(2).(*lua.LTable); ok {
+			n, _ := L.Get(3).(lua.LNumber)
+			rs := make([]string, 0, int(n))
+			for i := 1; i <= int(n) && i <= 100000; i++ {
+				rs = append(rs, tb.RawGetInt(i).String())
+			}
+			return "ok:" + strings.Join(rs, ";"), ""
+		}
 	}
 	var rs []string
 	for i := 1; i <= L.GetTop() && i <= 8; i++ {
 		rs = append(rs, L.Get(i).String())
 	}
-	return "ok:" + strings.Join(rs, ",")
+	return "ok:" + strings.Join(rs, ","), ""
+}
+
+// c07diff: where a long actual outcome leaves the expected one (both are ';'-separated lists for the adv:rk programs)
+func c07diff(got, want string) string {
+	if len(got) <= 200 && len(want) <= 200 {
+		return "got " + c07firstLine(got) + " want " + c07firstLine(want)
+	}
+	g, w := strings.Split(got, ";"), strings.Split(want, ";")
+	i := 0
+	for i < len(g) && i < len(w) && g[i] == w[i] {
+		i++
+	}
+	at := func(xs []string) string {
+		if i >= len(xs) {
+			return "<end>"
+		}
+		return strings.Join(xs[i:min(i+3, len(xs))], ";")
+	}
+	return fmt.Sprintf("value #%d (of %d, expected %d): got %s want %s", i+1, len(g), len(w), c07firstLine(at(g)), c07firstLine(at(w)))
 }
 
 func c07firstLine(s string) string {
@@ -244,7 +285,7 @@ func c07firstLine(s string) string {
 //	                      Lean `fragProto`, `FragOK`, `wf` (c07_frag.go)
 func execC07(ops []Op) []string {
 	var src strings.Builder
-	expect, run, srcRef := "", true, ""
+	expect, run, srcRef, isRK := "", true, "", false
 	var out []string
 	for _, op := range ops {
 		switch op.Args[0] {
@@ -254,6 +295,9 @@ func execC07(ops []Op) []string {
 			src.WriteByte('\n')
 			if len(op.Args) > 2 && strings.HasPrefix(op.Args[2], "adv:") && len(b) > 100000 {
 				srcRef = op.Args[2] // big adversarial source: regenerable from its name (c07_adv.go)
+			}
+			if len(op.Args) > 2 && strings.HasPrefix(op.Args[2], "adv:rk-") {
+				isRK = true
 			}
 		case "expect":
 			b, _ := hex.DecodeString(op.Args[1])
@@ -378,6 +422,9 @@ func execC07(ops []Op) []string {
 	c07.Unlock()
 	out = append(out, sb.String())
 	out = append(out, dec...)
+	if isRK {
+		rkOperandHist(p)
+	}
 	walkProtos(p, 1, func(q *lua.FunctionProto, _ int) {
 		for _, w := range q.Code {
 			op, a, b := w>>26, w>>18&0xff, w&0x1ff
@@ -391,8 +438,14 @@ func execC07(ops []Op) []string {
 		if expect != "" {
 			to = 20 * time.Second
 		}
-		oc := runProto(p, to)
+		oc, detail := runProto(p, to)
 		c07.Lock()
+		if isRK {
+			c07.rkRan++
+			if oc == expect {
+				c07.rkRanExpected++
+			}
+		}
 		switch {
 		case strings.HasPrefix(oc, "ok"):
 			c07.ranOK++
@@ -406,10 +459,74 @@ func execC07(ops []Op) []string {
 			strings.Contains(oc, "slice bounds") || strings.Contains(oc, "interface conversion")) {
 			out = append(out, "X crash => running the compiled chunk: "+c07firstLine(oc))
 		} else if expect != "" && oc != expect {
-			out = append(out, "X crash => wrong result of a program whose result is known by construction: got "+c07firstLine(oc)+" want "+c07firstLine(expect))
+			if oc == "err" {
+				oc += "(" + detail + ")"
+			}
+			out = append(out, "X crash => wrong result of a program whose result is known by construction: "+c07diff(oc, expect))
 		}
 	}
 	return out
+}
+
+// rkOperandHist: coverage of the adv:rk family as compiled (which RK operands are constants, which registers, and how
+// far the Bx constants reach); reported in the evidence, never a verdict
+func rkOperandHist(p *lua.FunctionProto) {
+	names := opNames()
+	h := map[string]int{}
+	rk := func(op string, fld string, v uint32) {
+		if v >= 256 {
+			h["rk:"+op+":"+fld+"=K"]++
+		} else {
+			h["rk:"+op+":"+fld+"=R"]++
+		}
+	}
+	walkProtos(p, 1, func(q *lua.FunctionProto, _ int) {
+		lastLoadK := map[uint32]uint32{} // register -> constant index of the LOADK that wrote it last (straight-line approximation)
+		for _, w := range q.Code {
+			op, a, b, c, bx := w>>26, w>>18&0xff, w&0x1ff, w>>9&0x1ff, w&0x3ffff
+			if int(op) >= len(names) {
+				continue
+			}
+			nm := names[op]
+			switch {
+			case op == 2 || op == 6 || op == 9: // LOADK GETGLOBAL SETGLOBAL
+				switch {
+				case bx <= 255:
+					h["rk:"+nm+":Bx<=255"]++
+				case bx <= 511:
+					h["rk:"+nm+":Bx=256..511"]++
+				default:
+					h["rk:"+nm+":Bx>=512"]++
+				}
+				if op == 2 {
+					lastLoadK[a] = bx
+				}
+				continue
+			case op == 7 || op == 8 || op == 14: // GETTABLE GETTABLEKS SELF
+				rk(nm, "C", c)
+				if c < 256 {
+					if k, ok := lastLoadK[c]; ok && k > 255 {
+						h["rk:"+nm+":C=R(loaded constant>255)"]++
+						if op == 14 && c == a+1 {
+							h["rk:SELF:C=R(A+1)"]++
+						}
+						if c == a {
+							h["rk:"+nm+":C=R(A)"]++
+						}
+					}
+				}
+			case op == 11 || op == 12 || (op >= 15 && op <= 20) || (op >= 26 && op <= 28): // SETTABLE SETTABLEKS ADD…POW EQ LT LE
+				rk(nm, "B", b)
+				rk(nm, "C", c)
+			}
+			delete(lastLoadK, a)
+		}
+	})
+	c07.Lock()
+	for k, v := range h {
+		c07.rkHist[k] += v
+	}
+	c07.Unlock()
 }
 
 func stmtOps(stmts []c07gStmt) []Op {
@@ -421,11 +538,11 @@ func stmtOps(stmts []c07gStmt) []Op {
 }
 
 func runC07(run *Run) {
-	nOrd, nAdv := 6000, 110
+	nOrd, nAdv := 6000, 110 // nAdv: the seed-rotated part of the adversarial grid; the RK family (c07_rk.go) is added in full on top
 	if run.Tier == "thorough" {
 		nOrd, nAdv = 50000, 0 // 0 = full adversarial grid
 	}
-	run.Rule = "random Lua programs (all statement kinds incl. goto/labels, closures, varargs, method calls, table constructors; all operators, nested) plus an adversarial profile (190-201 locals, 255/256/257 and 511/512/513 constants, 50/51/25500/25550/25551/25600 array fields, 10^4 hash fields, nesting depth 200, 250-300 upvalues, jumps of ±(2^17-1, 2^17, 2^17+1) for every loop kind, if/else and goto, 131071-131074 labels, >2^18 constants) compiled by the real parse.Parse+lua.Compile; every FunctionProto is decided by the Lean verifier wf (translation validation); plus `frag` cases (TEST of the tie behind theorem compile_fragment_wf): programs of the modelled compiler fragment (conditions, logical/relational operators, arithmetic with constant folding, unary minus, length, concatenation chains, local/global assignment, if/while/repeat/return/local; random programs and deep expressions with 0/45/55 % arithmetic nodes x 12 contexts, bounded-exhaustive operator x operand-class trees and concatenation chains (sampled in quick), nested relational temporaries, 150-200 chunk locals with relational/arithmetic/concatenation chains around maxRegisters, constant indices around 255/256 for comparison and arithmetic operands, MOVE runs up to 199, empty programs) compiled by the real front-end and compared field by field with the Lean fragProto (compile model -> patchCode -> toProto), FragOK and wf evaluated on the result; distinct = distinct top-level statement-kind skeletons among cases with >= 3 statements"
+	run.Rule = "random Lua programs (all statement kinds incl. goto/labels, closures, varargs, method calls, table constructors; all operators, nested) plus an adversarial profile (190-201 locals, 255/256/257 and 511/512/513 constants, 50/51/25500/25550/25551/25600 array fields, 10^4 hash fields, nesting depth 200, 250-300 upvalues, jumps of ±(2^17-1, 2^17, 2^17+1) for every loop kind, if/else and goto, 131071-131074 labels, >2^18 constants; RK family: every instruction kind with a register-or-constant / Bx-constant operand (SELF, GETTABLE(KS), SETTABLE(KS) from assignments, constructors and function definitions, ADD..POW, EQ/LT/LE, LOADK, GETGLOBAL, SETGLOBAL) EXECUTED with its constant at index <=255, 256..511 and >=512 and exactly on 255|256 and 511|512, x operand/receiver kind (local, upvalue, global, table field, call result, operator result, constant) x destination kind (table store, new/existing local, global, upvalue, call argument, constructor item, branch condition, destination = operand register), every value compared with the list known by construction) compiled by the real parse.Parse+lua.Compile; every FunctionProto is decided by the Lean verifier wf (translation validation); plus `frag` cases (TEST of the tie behind theorem compile_fragment_wf): programs of the modelled compiler fragment (conditions, logical/relational operators, arithmetic with constant folding, unary minus, length, concatenation chains, local/global assignment, if/while/repeat/return/local; random programs and deep expressions with 0/45/55 % arithmetic nodes x 12 contexts, bounded-exhaustive operator x operand-class trees and concatenation chains (sampled in quick), nested relational temporaries, 150-200 chunk locals with relational/arithmetic/concatenation chains around maxRegisters, constant indices around 255/256 for comparison and arithmetic operands, MOVE runs up to 199, empty programs) compiled by the real front-end and compared field by field with the Lean fragProto (compile model -> patchCode -> toProto), FragOK and wf evaluated on the result; distinct = distinct top-level statement-kind skeletons among cases with >= 3 statements"
 	run.Assume = []string{
 		"the abstract VM `step` (Model/Verifier.lean) lists every slice index / register read of /repo/_vm.go per opcode; sampled by executing the compiled ordinary programs under recover (a Go index panic in wf-approved code is reported)",
 		"register writes cannot fault (reg.Set/SetNumber/SetTop/CopyRange/FillNil call checkSize first) and reg.array never shrinks, so only register reads are obligations of wf_sound",
@@ -504,6 +621,10 @@ func runC07(run *Run) {
 	for k, v := range c07.compileErrKinds {
 		run.Hist["compile_error:"+k] = v
 	}
+	for k, v := range c07.rkHist {
+		run.Hist[k] = v
+	}
+	run.Hist["rk_programs_run"], run.Hist["rk_programs_with_the_expected_result"] = c07.rkRan, c07.rkRanExpected
 	c07names := opNames()
 	for i, n := range c07.opHist {
 		if i < len(c07names) {
